@@ -227,6 +227,9 @@ func runC04State(c *fw.Ctx) {
 				if relayed {
 					continue
 				}
+				if strings.Contains(pe.Err.Error(), "failed to validate Delta MtA Nth proof") && len(pe.Culprits) == 1 && pe.Culprits[0] != cheater {
+					continue // reported by CheckBlame under its own, site-specific signature
+				}
 				if len(pe.Culprits) != 1 || pe.Culprits[0] != cheater {
 					c.Violate(sigBase+"/cheater-not-singled-out", "honest signer %q ended with %q naming %v; the deviating signer is %q", o.id, trimS(pe.Err.Error(), 160), pe.Culprits, cheater)
 				} else {
